@@ -499,3 +499,146 @@ register(
           "rule; fired transitions / chosen branch / check() result are compared. Non-trivial = >= 3 guard evaluations and >= 2 transitions"),
     nontrivial=lambda sc, r: sum(1 for x in r.trace if x[3] == "gcall") >= 3 and sum(1 for x in r.trace if x[3] == "trans") >= 2,
 )
+
+
+# ===========================================================================
+# C07 - failure containment and atomicity (fault enumeration)
+# ===========================================================================
+from . import c07 as C07  # noqa: E402
+
+
+def _noeffect_extras(rng, mg, cfg):
+    """Append behaviour-neutral extra actions (markers, assign to an unread key, log, emit, pure/choose of markers)."""
+    def extras():
+        out = []
+        for _ in range(rng.randint(0, 3)):
+            k = rng.random()
+            if k < 0.35:
+                out.append(mg.act(f"x{rng.randint(1, 4)}"))
+            elif k < 0.55:
+                out.append({"type": "xstate.assign", "params": {"assignment": {"$fn": {"k": "assign", "name": "asg_z", "ops": [["inc", "z", 1]]}}}})
+            elif k < 0.65:
+                out.append({"type": "xstate.emit", "params": {"event": {"type": "NOTE"}}})
+            elif k < 0.8:
+                out.append({"type": "xstate.pure", "params": {"get": {"$fn": {"k": "pure", "name": "pure1", "ret": [mg.act("pu_a"), mg.act("pu_b")]}}}})
+            elif k < 0.9:
+                out.append({"type": "xstate.choose", "params": {"conditions": [{"guard": "g_true", "actions": [mg.act("ch_a")]}, {"actions": [mg.act("ch_b")]}]}})
+            else:
+                out.append({"type": "xstate.enqueueActions", "params": {"callback": {"$fn": {"k": "enq", "name": "enq1", "items": [mg.act("eq_a")], "checks": []}}}})
+        return out
+    mg.guards["g_true"] = {"k": "const", "v": True}
+
+    def walk(c):
+        for f in ("entry", "exit"):
+            if isinstance(c.get(f), list) and rng.random() < 0.6:
+                c[f] = c[f] + extras()
+        for field in ("on", "after"):
+            for ev, tc in (c.get(field) or {}).items():
+                for t in (tc if isinstance(tc, list) else [tc]):
+                    if isinstance(t, dict) and isinstance(t.get("actions"), list) and rng.random() < 0.6:
+                        t["actions"] = t["actions"] + extras()
+        for ch in (c.get("states") or {}).values():
+            walk(ch)
+    walk(cfg)
+
+
+def gen_c07_contain(engine):
+    def g(seed):
+        rng = _rng(seed, 700)
+        mg = MachineGen(rng, prof(p_assign=0.0, p_raise=0.0, p_extra_entry=0.0, p_always=0.0, p_history=0.1, p_parallel=0.2,
+                                  p_final=0.1, n_states=(3, 8), p_guard=0.3, p_after=0.15))
+        out = mg.build()
+        _noeffect_extras(rng, mg, out["machine"])
+        out["machine"]["context"]["z"] = 0
+        ops = seq_ops(rng, mg, n_lo=3, n_hi=7, p_adv=0.15)
+        sc = _base(seed, engine, out, ops, horizon=None)
+        sc["c07_mode"] = "contain"
+        sc["hostile_plugin"] = ["on_transition", "on_action_execute", "on_event_received", "on_guard_evaluated", "on_interpreter_start", "on_action_error"]
+        sc["hostile_subscriber"] = True
+        sc["hostile_listener"] = True
+        sc["fault_pairs"] = [[rng.randint(1, 30), rng.randint(31, 60)] for _ in range(3)]
+        return sc
+    return g
+
+
+def gen_c07_abort(engine):
+    def g(seed):
+        rng = _rng(seed, 701)
+        mg = MachineGen(rng, prof(p_assign=0.1, p_raise=0.0, p_always=0.0, p_history=0.1, p_parallel=0.2, p_final=0.0, root_final=False,
+                                  n_states=(3, 8), p_guard=0.2, p_after=0.35, p_trans=0.6))
+        out = mg.build()
+        kind = rng.choice(("missing_action", "missing_action", "bad_target", "missing_service") + (("coro_action",) if engine == "sync" else ()))
+        # poison one transition / entry / exit list
+        spots = []
+
+        def walk(c, path):
+            for f in ("entry", "exit"):
+                if isinstance(c.get(f), list) and path:
+                    spots.append((c, f, None))
+            for ev, tc in (c.get("on") or {}).items():
+                for t in (tc if isinstance(tc, list) else [tc]):
+                    if isinstance(t, dict) and t.get("target"):
+                        spots.append((t, "actions", ev))
+            for k, ch in (c.get("states") or {}).items():
+                walk(ch, path + (k,))
+        walk(out["machine"], ())
+        where = None
+        if spots:
+            holder, field, ev = rng.choice(spots)
+            where = field if ev is None else "transition"
+            if kind == "missing_action":
+                lst = holder.setdefault(field, [])
+                lst.insert(rng.randint(0, len(lst)), "not_implemented_action")
+            elif kind == "coro_action":
+                lst = holder.setdefault(field, [])
+                mg.actions["coro_act"] = {"eff": [], "force_async": True}
+                lst.insert(rng.randint(0, len(lst)), "coro_act")
+            elif kind == "bad_target" and field == "actions":
+                holder["target"] = "#m.no_such_state"
+            elif kind == "missing_service":
+                # the state entered by this transition invokes an unregistered service: poison a random state instead
+                pass
+        if kind == "missing_service":
+            states = []
+
+            def sw(c, path):
+                for k, ch in (c.get("states") or {}).items():
+                    if ch.get("type") not in ("history", "final") and path + (k,) != (out["machine"].get("initial"),):
+                        states.append(ch)
+                    sw(ch, path + (k,))
+            sw(out["machine"], ())
+            if states:
+                st = rng.choice(states)
+                st["invoke"] = {"src": "unregistered_service", "id": "inv_missing"}
+                where = "invoke"
+        ops = [{"op": "start"}]
+        for _ in range(rng.randint(4, 10)):
+            if rng.random() < 0.2:
+                ops.append({"op": "advance", "dt": rng.choice((10, 30, 100)) * MS})
+            else:
+                ops.append({"op": "send", "event": rng.choice(mg.events), "tag": len(ops)})
+        sc = _base(seed, engine, out, ops, horizon=None)
+        sc["ops"].append({"op": "advance", "dt": 400 * MS})
+        sc["c07_mode"] = "abort"
+        sc["poison"] = {"kind": kind, "where": where}
+        return sc
+    return g
+
+
+register(
+    "C07",
+    families=[("contain_sync", 3, gen_c07_contain("sync")), ("contain_async", 3, gen_c07_contain("async")),
+              ("abort_sync", 2, gen_c07_abort("sync")), ("abort_async", 2, gen_c07_abort("async"))],
+    runner=C07.run_c07,
+    stats=C07.stats_c07,
+    level="fault_enumeration",
+    chunk=8,
+    tiers={"quick": {"runs": 500}, "thorough": {"runs": 30000}},
+    rule=("per sampled scenario: a fault-free run counts the calls to generated code (actions, assign/pure/enqueueActions/param "
+          "callables, guards, hostile plugin hooks, subscriber, emit listener), then the scenario is re-run once per call position (all "
+          "of them up to 48, evenly thinned above) with that call raising, plus seeded pairs; twin comparison against the fault-free run "
+          "(configuration sequence, action stream minus one contiguous remainder, on_action_error). Abort families poison one action "
+          "list / target / invoke (missing action, coroutine action under sync, unresolvable target, unregistered service) and check "
+          "rollback to the pre-transition configuration, reporting, re-armed timers and continued processing. evaluations counts "
+          "scenarios; fault positions are in the counters. Non-trivial = >= 3 transitions"),
+)
